@@ -610,7 +610,7 @@ def c08(ctx):
     compact = {'indent': ['spaces', 0], 'alim': ['none'], 'olim': ['none']}
     printer_trace(ctx, 'C08.trace', None,
                   only=lambda ev: all(ev['o'].get(k) == v for k, v in compact.items()) and all(ev['o'][k] == 0 for k in ev['o'] if k not in compact))
-    sweeps(ctx, ['print_str', 'print_key', 'print_long_str', 'print_long_key'], 'C08.sweep',
+    sweeps(ctx, ['print_str', 'print_key', 'print_long_str', 'print_long_key', 'print_pad'], 'C08.sweep',
            'compact printing of a one-character string / key differs from the RFC 8785 escaping (run-compressed exhaustive sweep)')
 
 
